@@ -717,3 +717,25 @@ mutant('C20', 'scan-first-worm-only', PT, _SCAN, """        worm_gear = next((el
 """, 'C20.locking')
 mutant('C20', 'scan-any-gear', PT, _SCAN, """        self.__self_locking = any(isinstance(element, WormGear) for element in self.elements)
 """, 'C20.locking')
+
+# ------------------------------------------------------------------------------------------ C12 hidden state outside the elements (round 2)
+mutant('C12', 'rule-remembers-expiry', 'gearpy/motor_control/rules/constant_pwm.py', "        if self.__timer.is_active(current_time=self.__powertrain.time[-1]):\n            return self.__target_pwm_value\n", "        if getattr(self, '_done', False):\n            return None\n        if self.__timer.is_active(current_time=self.__powertrain.time[-1]):\n            return self.__target_pwm_value\n        self._done = self.__powertrain.time[-1] >= self.__timer.start_time\n", 'C12.reset')
+
+# ------------------------------------------------------------------------------------------ C18 export cells (round 2)
+_EXPCOL = """            data[f'{variable} ({unit})'] = [
+                variable_snapshot.to(unit).value
+                for variable_snapshot
+                in rotating_object.time_variables[variable]
+            ]
+"""
+mutant('C18', 'export-factor-from-first-sample', EXP, _EXPCOL, """            samples = rotating_object.time_variables[variable]
+            factor = 1
+            if samples:
+                factor = type(samples[0])(1, samples[0].unit).to(unit).value
+            data[f'{variable} ({unit})'] = [variable_snapshot.value*factor for variable_snapshot in samples]
+""", 'C18.export')
+benign('C18', 'export-column-via-local', EXP, _EXPCOL, """            samples = rotating_object.time_variables[variable]
+            data[f'{variable} ({unit})'] = [sample.to(unit).value for sample in samples]
+""")
+mutant('C18', 'export-raw-values', EXP, _EXPCOL, """            data[f'{variable} ({unit})'] = [s.value for s in rotating_object.time_variables[variable]]
+""", 'C18.export')
